@@ -19,6 +19,7 @@ import (
 type msgItem struct {
 	id, date int
 	service  bool
+	empty    bool // served as a messageEmpty placeholder: takes a slot of the page, is not a message
 }
 
 type server struct {
@@ -155,7 +156,9 @@ func (s *server) history(offsetID, offsetDate, addOffset, limit int) bin.Encoder
 	s.pages = append(s.pages, len(page))
 	msgs := make([]tg.MessageClass, 0, len(page))
 	for _, m := range page {
-		if m.service {
+		if m.empty {
+			msgs = append(msgs, &tg.MessageEmpty{ID: m.id})
+		} else if m.service {
 			msgs = append(msgs, &tg.MessageService{ID: m.id, PeerID: &tg.PeerUser{UserID: 10}, Date: m.date, Action: &tg.MessageActionHistoryClear{}})
 		} else {
 			msgs = append(msgs, &tg.Message{ID: m.id, PeerID: &tg.PeerUser{UserID: 10}, Date: m.date, Message: fmt.Sprint("m", m.id)})
@@ -266,6 +269,9 @@ type wMsg struct {
 	//	fetchtotal Iterator.FetchTotal (a fresh limit-1 request) between every Next and the Value that follows
 	//	total-first / fetchtotal-first: once, before the first Next
 	Probe string `json:"probe,omitempty"`
+	// Empties: every fourth entry of the history (index 1, 5, ...) is served as a messageEmpty placeholder; it fills a
+	// slot of its page and is not owed to the caller
+	Empties bool `json:"empties,omitempty"`
 }
 
 func makeHistory(n int, ids, dates string) []msgItem {
@@ -324,6 +330,11 @@ func compare(got, want []int) (string, bool) {
 
 func evalMessages(w wMsg) kit.Result {
 	hist := makeHistory(w.N, w.IDs, w.Dates)
+	if w.Empties {
+		for i := range hist {
+			hist[i].empty = i%4 == 1
+		}
+	}
 	srv := &server{hist: hist, kind: w.Kind, cap: 3*w.N + 12}
 	if w.Probe != "" {
 		srv.cap += w.N + 2 // one extra request per probe
@@ -334,6 +345,9 @@ func evalMessages(w wMsg) kit.Result {
 	want := []int{}
 	for i, m := range hist {
 		if w.Start != 0 && i < w.Start {
+			continue
+		}
+		if m.empty {
 			continue
 		}
 		want = append(want, m.id)
@@ -636,6 +650,11 @@ func main() {
 									}
 									for _, st := range starts {
 										fm.Eval(wMsg{Query: q, Kind: kind, N: n, Page: page, IDs: idp, Dates: dp, Via: via, Start: st})
+									}
+									// placeholders inside full, non-final pages (pages of >= 2 entries, so that no page consists of
+									// placeholders only - that case is not explored)
+									if page >= 2 && n >= 2 && dp == "distinct" {
+										fm.Eval(wMsg{Query: q, Kind: kind, N: n, Page: page, IDs: idp, Dates: dp, Via: via, Empties: true})
 									}
 								}
 							}
